@@ -219,6 +219,56 @@ impl Agg {
     }
 }
 
+// ---- a process abort inside the code under test (a panic where unwinding is not allowed, a
+// panic while panicking) cannot be caught: a SIGABRT handler writes the indices of the runs
+// that were executing to a file opened beforehand, and bin/check turns that into a report.
+static CUR_RUN: [AtomicU64; 64] = [const { AtomicU64::new(0) }; 64];
+static ABORT_FD: std::sync::atomic::AtomicI32 = std::sync::atomic::AtomicI32::new(-1);
+
+extern "C" fn on_abort(_sig: libc::c_int) {
+    let fd = ABORT_FD.load(Ordering::Relaxed);
+    if fd >= 0 {
+        for slot in CUR_RUN.iter() {
+            let v = slot.load(Ordering::Relaxed);
+            if v == 0 {
+                continue;
+            }
+            // decimal digits of v - 1 and a newline, without allocating
+            let mut n = v - 1;
+            let mut buf = [0u8; 24];
+            let mut i = buf.len();
+            i -= 1;
+            buf[i] = b'\n';
+            loop {
+                i -= 1;
+                buf[i] = b'0' + (n % 10) as u8;
+                n /= 10;
+                if n == 0 {
+                    break;
+                }
+            }
+            unsafe {
+                libc::write(fd, buf[i..].as_ptr() as *const libc::c_void, buf.len() - i);
+            }
+        }
+    }
+    unsafe { libc::_exit(134) }
+}
+
+/// Open `<verif_dir>/replays/.abort-<prop>` and install the SIGABRT handler.
+pub fn install_abort_handler(verif_dir: &str, prop: &str) {
+    let _ = std::fs::create_dir_all(format!("{}/replays", verif_dir));
+    let path = format!("{}/replays/.abort-{}", verif_dir, prop);
+    let _ = std::fs::remove_file(&path);
+    if let Ok(c) = std::ffi::CString::new(path) {
+        let fd = unsafe { libc::open(c.as_ptr(), libc::O_WRONLY | libc::O_CREAT | libc::O_TRUNC, 0o644) };
+        ABORT_FD.store(fd, Ordering::Relaxed);
+        unsafe {
+            libc::signal(libc::SIGABRT, on_abort as extern "C" fn(libc::c_int) as libc::sighandler_t);
+        }
+    }
+}
+
 /// Wall-clock budget of one run before the watchdog calls it a hang (ring T has
 /// its own 30 s step watchdog; the longest legitimate runs are the start-up
 /// probes of C20 with their 30 s answer deadlines).
@@ -256,6 +306,7 @@ pub fn run_check(chk: &dyn Check, cfg: &RunConfig) -> i32 {
     let open_sigs: BTreeSet<String> = open.iter().map(|k| k.signature.clone()).collect();
 
     println!("check {} tier={} seed={} jobs={}", prop, cfg.tier.name(), cfg.seed, cfg.jobs);
+    install_abort_handler(&cfg.verif_dir, prop);
 
     // phase 0: embedded histories of the open known findings
     let mut known_reproduced: Vec<String> = Vec::new();
@@ -355,6 +406,7 @@ pub fn run_check(chk: &dyn Check, cfg: &RunConfig) -> i32 {
                     let rs = run_seed(cfg.seed, prop, i);
                     slot.1.store(t0.elapsed().as_millis() as u64, Ordering::SeqCst);
                     slot.0.store(i + 1, Ordering::SeqCst);
+                    CUR_RUN[w % 64].store(i + 1, Ordering::Relaxed);
                     let (out, case) = match chk.run_fast(rs, i, cfg.tier) {
                         Some(o) => (o, None),
                         None => {
@@ -363,6 +415,7 @@ pub fn run_check(chk: &dyn Check, cfg: &RunConfig) -> i32 {
                         }
                     };
                     slot.0.store(0, Ordering::SeqCst);
+                    CUR_RUN[w % 64].store(0, Ordering::Relaxed);
                     let mut new_viol = Vec::new();
                     let mut known_here = Vec::new();
                     for v in &out.violations {
